@@ -286,6 +286,69 @@ def _calls(fn, qnames):
     return [n for n in fn.all_nodes() if n.get('k') == 'call' and n.get('q') in qnames]
 
 
+def _add_size_parent_chain_loop(fn, p0):
+    """Equivalent iterative form of Builder::add_size: a cursor that starts at `this`, is advanced with `cursor = cursor->m_parent`
+    and nothing else, a loop that runs while the cursor is non-null, and in every iteration `cursor->item().add_size(size)`."""
+    from ..flow import in_cfg_loop
+    cursor = None
+    for n in fn.all_nodes():
+        if n.get('k') == 'decl':
+            for v in n['vars']:
+                if isinstance(v.get('init'), int) and (fn.sn(v['init']) or {}).get('k') == 'this':
+                    cursor = v['d']
+    if cursor is None:
+        return False
+    steps = 0
+    for n in fn.all_nodes():
+        if n.get('k') == 'assign':
+            l = fn.sn(n['lhs'])
+            if l is not None and l.get('k') == 'var' and l.get('d') == cursor:
+                r = fn.sn(n['rhs'])
+                if n['op'] != '=' or r is None or r.get('k') != 'member' or r.get('name') != 'm_parent':
+                    return False
+                b = fn.sn(r['base'])
+                if b is None or b.get('k') != 'var' or b.get('d') != cursor:
+                    return False
+                steps += 1
+        elif n.get('k') == 'unop' and n['op'] in ('++', '--'):
+            x = fn.sn(n['sub'])
+            if x is not None and x.get('k') == 'var' and x.get('d') == cursor:
+                return False
+    if steps != 1:
+        return False
+    adds = [n for n in fn.all_nodes() if n.get('k') == 'call' and n.get('q') == 'osmium::memory::Item::add_size']
+    if len(adds) != 1:
+        return False
+    a = adds[0]
+    rv = fn.root_var(a.get('recv'))
+    x = fn.sn(a['args'][0]) if a.get('args') else None
+    if rv != ('var', cursor, rv[2] if rv else None) or x is None or x.get('k') != 'var' or x.get('d') != p0:
+        return False
+    if not in_cfg_loop(fn, a['id']):
+        return False
+    # the loop is left only when the cursor is null: every path from the add to the exit passes a false edge of a cursor test;
+    # and no path from entry reaches the exit without the add unless the cursor was null (it starts as `this`, never null)
+    ids = {a['id']}
+    w = path_search(fn, fn.entry, exit_t, lambda e: e in ids or _is_throw_or_noreturn(fn, e), from_block_start=True)
+    if w is None:
+        return True
+    # a path without the add exists syntactically (loop condition false at once); accept only if that edge tests the cursor
+    for b in fn.blocks.values():
+        if 'cond' in b and len(b['succs']) == 2:
+            c = fn.sn(b['cond'])
+            txt_ok = False
+            if c is not None and c.get('k') == 'var' and c.get('d') == cursor:
+                txt_ok = True
+            if c is not None and c.get('k') == 'binop' and c['op'] in ('!=', '=='):
+                l, r = fn.sn(c['lhs']), fn.sn(c['rhs'])
+                if (l is not None and l.get('k') == 'var' and l.get('d') == cursor and r is not None and r.get('null')) or \
+                        (r is not None and r.get('k') == 'var' and r.get('d') == cursor and l is not None and l.get('null')):
+                    txt_ok = True
+            if txt_ok:
+                return True
+    return False
+
+
 def size_rules(fb, R):
     builder_classes = {r.q for r in fb.records if BLD in r.allbases} | {BLD}
     ADD = BLD + '::add_size'
@@ -317,6 +380,8 @@ def size_rules(fb, R):
                 return True
             rid = {rec[0]['id']}
             ok = ok and path_search(fn, fn.entry, exit_t, lambda e: e in rid or _is_throw_or_noreturn(fn, e), edge_ok, from_block_start=True) is None
+        if not ok:
+            ok = _add_size_parent_chain_loop(fn, p0)
         R.check(ok, 'S1-add_size-self-and-ancestors', ADD, fn.site,
                 'Builder::add_size must add the size to the own item and, when there is a parent, recurse into m_parent->add_size(size) on every path')
     if not fb.fns(ADD):
